@@ -77,13 +77,15 @@ OptsFull ==
 
 OptsMed ==
   {Plain(p) : p \in GapClasses} \cup
-  {WithC(p, c, q) : p \in {"none", "space", "newline"}, c \in LineKinds, q \in {"newline", "indent"}} \cup
-  {WithC(p, "BlockComment", q) : p \in {"space", "newline"}, q \in {"space", "newline"}}
+  {WithC("space", "LineComment", "newline"), WithC("none", "LineComment", "newline"),
+   WithC("newline", "LineComment", "newline"), WithC("newline", "LineComment", "indent"),
+   WithC("space", "DocComment", "newline"), WithC("newline", "DocComment", "newline"),
+   WithC("space", "BlockComment", "space"), WithC("newline", "BlockComment", "newline"),
+   WithC("none", "BlockComment", "none")}
 
 OptsSmall ==
-  {Plain("none"), Plain("newline"), Plain("indent"),
-   WithC("space", "LineComment", "newline"), WithC("newline", "LineComment", "indent"),
-   WithC("space", "BlockComment", "space")}
+  {Plain("none"), Plain("newline"),
+   WithC("space", "LineComment", "newline"), WithC("space", "BlockComment", "space")}
 
 (***************************************************************************)
 (* (d) Skeletons: small syntactically valid grammar files as sequences of  *)
@@ -92,6 +94,8 @@ OptsSmall ==
 (***************************************************************************)
 I(k)  == <<k, Spell[k]>>
 N(x)  == <<"Id", x>>
+
+LongIds(n) == [i \in 1 .. n |-> N("T" \o ToString(9 + i))]
 
 Skeletons == <<
   \* 1  s: A B;
@@ -122,8 +126,13 @@ Skeletons == <<
   << N("s"), I("Colon"), I("LPar"), N("A"), I("Or"), N("B"), I("RPar"), I("Star"),
      I("LBrak"), N("A"), I("Or"), N("B"), I("RBrak"), I("Semi") >>,
   \* 13 s: A | B C / D;
-  << N("s"), I("Colon"), N("A"), I("Or"), N("B"), N("C"), I("Slash"), N("D"), I("Semi") >>
+  << N("s"), I("Colon"), N("A"), I("Or"), N("B"), N("C"), I("Slash"), N("D"), I("Semi") >>,
+  \* 14 token T10 T11 ... T33 Z;   (longer than the formatter's line width of 100: the engine must wrap)
+  << I("Token") >> \o LongIds(24) \o << N("Z"), I("Semi") >>,
+  \* 15 s: T10 T11 ... T33 Z;
+  << N("s"), I("Colon") >> \o LongIds(24) \o << N("Z"), I("Semi") >>
 >>
+NSmall == 13      \* skeletons 1..NSmall get the full layout bounds, the long ones one deviating gap
 
 \* gap positions of a skeleton with n items: 0 (before the first item) .. n (after the last)
 Positions(sk) == 0 .. Len(sk)
@@ -146,9 +155,14 @@ Text(sk, dev) ==
          IF k % 2 = 1 THEN GapString(GapAt(sk, dev, (k - 1) \div 2)) ELSE sk[k \div 2][2]])
 
 \* all deviations of at most K gaps with options from Opts
+RECURSIVE SubsetsUpTo(_, _)      \* the subsets of S with at most K elements
+SubsetsUpTo(S, K) ==
+  IF K = 0 THEN {{}}
+  ELSE LET R == SubsetsUpTo(S, K - 1) IN R \cup { T \cup {x} : T \in R, x \in S }
+
 Deviations(sk, K, Opts) ==
   UNION { { d \in [P -> Opts] : \A p \in P : d[p] # Default(sk, p) /\ Legal(sk, p, d[p]) }
-          : P \in { Q \in SUBSET Positions(sk) : Cardinality(Q) <= K } }
+          : P \in SubsetsUpTo(Positions(sk), K) }
 
 \* the same option in every gap where it is legal ("comments in every gap at once")
 Uniform(sk, g) == [p \in { q \in Positions(sk) : Legal(sk, q, g) /\ g # Default(sk, q) } |-> g]
